@@ -5,6 +5,7 @@ import (
 	"fmt"
 	"os"
 	"strings"
+	"unicode/utf8"
 )
 
 type screen interface {
@@ -324,6 +325,7 @@ func (s *spanScreen) writeString(text string, width int, merge bool, mode TextRe
 		return
 	}
 	s.textMode = mode
+	text = replaceInvalidUTF8(text)
 	if merge {
 		s.mergeIntoPreviousCell(text)
 		return
@@ -344,6 +346,23 @@ func (s *spanScreen) writeString(text string, width int, merge bool, mode TextRe
 	sp := Span{Style: s.style, Text: text, Width: width}
 	s.rawWriteSpan(s.cursorPos.X, s.cursorPos.Y, sp, CRText)
 	s.moveCursor(width, 0, true, true)
+}
+
+// replaceInvalidUTF8 substitutes U+FFFD for every byte that is not part of a
+// valid UTF-8 character (one per byte, as the reader counts one cell for each).
+// Stored raw, such bytes would combine with their neighbours into different
+// characters whenever the span text is tokenised again.
+func replaceInvalidUTF8(text string) string {
+	if utf8.ValidString(text) {
+		return text
+	}
+	var sb strings.Builder
+	for len(text) > 0 {
+		r, size := utf8.DecodeRuneInString(text)
+		sb.WriteRune(r)
+		text = text[size:]
+	}
+	return sb.String()
 }
 
 func (s *spanScreen) insertRunes(b []rune) {
